@@ -12,6 +12,8 @@ MCHays    == SeqsUpTo({97, 98}, AB_H) \cup StrsUpTo(UChars, U_H) \cup SeqsUpTo(R
 MCNeedles == SeqsUpTo({97, 98}, AB_N) \cup StrsUpTo(UChars, U_N) \cup SeqsUpTo(RawBytes, RAW_N)
 
 Vec(o, hh, nn) == [m |-> "Matcher", op |-> o, h |-> hh, n |-> nn, exp |-> Ref(o, hh, nn)]
-Vectors == {Vec(o, hh, nn) : o \in Ops, hh \in MCHays, nn \in MCNeedles}
-Emit == ndJsonSerialize(IOEnv.OUT, SetToSeq({v \in Vectors : Specified(v.op, v.h, v.n)}))
+\* one file per operation (TLC limits a set to 10^6 elements); keys are homogeneous tuples
+EmitOp(o) == LET ks == SetToSeq({<<hh, nn>> \in MCHays \X MCNeedles : Specified(o, hh, nn)}) IN
+             ndJsonSerialize(IOEnv.OUT \o "-" \o o \o ".ndjson", [q \in 1..Len(ks) |-> Vec(o, ks[q][1], ks[q][2])])
+Emit == \A o \in Ops : EmitOp(o)
 =============================================================================
